@@ -645,6 +645,34 @@ func (s *Session) replayOnceMode(prop string, o *Obligation, prev []map[string]s
 				steer = append(steer, Eq(w.t, IntLit(0)))
 			}
 		}
+		// two buffers: the second does not fit into the spare capacity of the first, or the reverse
+		// (growing append with partial spare capacity, longer source than destination, …)
+		var lens, caps []*Term
+		for _, w := range wants {
+			if strings.HasSuffix(w.key, ".len") && w.t.Sort == SInt {
+				base := strings.TrimSuffix(w.key, ".len")
+				var capT *Term
+				isBuf := false
+				for _, w2 := range wants {
+					switch w2.key {
+					case base + ".cap":
+						capT = w2.t
+					case base + ".ch":
+						isBuf = true
+					}
+				}
+				if isBuf && capT != nil {
+					lens, caps = append(lens, w.t), append(caps, capT)
+				}
+			}
+		}
+		if len(lens) == 2 && (k%6 == 1 || k%6 == 4) {
+			a, b := 0, 1
+			if k%6 == 4 {
+				a, b = 1, 0
+			}
+			steer = append(steer, Lt(lens[a], caps[a]), Gt(Add(lens[a], lens[b]), caps[a]), Ge(lens[a], IntLit(1)))
+		}
 		preSteer = steer
 	}
 	for _, pm := range prev {
